@@ -27,6 +27,7 @@ ENCODED = [
     "tensorly.decomposition._parafac2.parafac2",
     "tensorly.decomposition._parafac2._parafac2_reconstruction_error",
     "tensorly.decomposition._parafac2._compute_projections",
+    "tensorly.decomposition._parafac2._project_tensor_slices",
     "tensorly.cp_tensor.cp_norm",
     "tensorly.cp_tensor.cp_normalize",
     "tensorly.cp_tensor.cp_to_tensor",
@@ -35,7 +36,7 @@ BOUNDS = {
     "quick": "orders 2-4, mode sizes 2 (one 3), rank 1-2, K <= 3 sweeps (8 for the line-search branch), option sets listed in configs()",
     "thorough": "same plus rank 3 on 3x3x3 and 4 sweeps",
 }
-OUTSIDE = ["more sweeps than K (covered inductively only because kernels are havoc'd)", "sizes > 3", "IEEE rounding except the explicit sqrt-argument obligation"]
+OUTSIDE = ["masked Tucker/HOOI (which quantity is 'the' error of a masked iterate -- observed entries or the tensor imputed from the previous iterate -- is not fixed by the property; observed while building: partial_tucker keeps the norm of the un-imputed tensor)", "more sweeps than K (covered inductively only because kernels are havoc'd)", "sizes > 3", "IEEE rounding except the explicit sqrt-argument obligation"]
 TRUSTED = ["z3", "havoc/Givens kernel stubs", "sum-of-squares >= 0 lemmas (valid by construction)"]
 ASSUMPTIONS = ["data tensor is not identically zero (division by its norm)", "real arithmetic except the rounding-robustness obligation on sqrt arguments"]
 
@@ -94,7 +95,15 @@ def configs(tier):
     for shp in [(2, 2), (2, 2, 2)]:
         add("parafac", shape=shp, R=1, opt="mask", K=2)
         add("parafac", shape=shp, R=2, opt="mask_normalize", K=2)
-        add("parafac", shape=shp, R=1, opt="sparsity", K=1, mode="fork")
+        if shp == (2, 2):
+            add("parafac", shape=shp, R=1, opt="sparsity", K=1)
+    for shp, rank in [((2, 2), (1, 1)), ((2, 2), (2, 1)), ((2, 2, 2), (1, 1, 1)), ((2, 2, 2), (2, 1, 1)), ((2, 2, 2), (2, 2, 1)), ((3, 2, 2), (1, 2, 1))] + ([] if q else [((2, 2, 2), (2, 2, 2)), ((2, 2, 2, 2), (1, 1, 1, 1))]):
+        add("tucker", shape=shp, rank=rank, opt="plain", K=2, mode="fork")
+    add("tucker", shape=(2, 2, 2), rank=(2, 1), opt="partial", modes=(0, 2), K=2, mode="fork")
+    add("tucker", shape=(2, 2, 2), rank=(1, 2, 1), opt="random_init", K=2, mode="fork")
+    for rows, J, R in [((2, 2), 2, 1), ((2, 3), 2, 1), ((2, 2), 2, 2)] + ([] if q else [((3, 2), 2, 2), ((2, 2, 2), 2, 1)]):
+        for opt in ("plain", "normalize", "svd_init"):
+            add("parafac2", rows=rows, J=J, R=R, opt=opt, K=2, mode="fork")
     add("parafac", shape=(2, 2, 2), R=1, opt="linesearch", K=8, mode="fork")
     add("parafac", shape=(2, 2), R=2, opt="linesearch_normalize", K=8, mode="fork")
     add("parafac", shape=(2, 2, 2), R=2, opt="symbolic_tol", K=3, mode="fork")
@@ -106,8 +115,174 @@ def harness(E, cfg):
     fam = cfg["fam"]
     if fam == "parafac":
         h_parafac(E, cfg)
+    elif fam == "tucker":
+        h_tucker(E, cfg)
+    elif fam == "parafac2":
+        h_parafac2(E, cfg)
     else:
         raise KeyError(fam)
+
+
+def stub_orthonormal_svd(matrix, n_eigenvecs=None, **kw):
+    """SVD contract used for the error identities: U has orthonormal columns and V orthonormal rows *identically*
+    (Givens-generated, see DESIGN 1.3), singular values non-increasing >= 0; no relation to `matrix` is assumed, i.e. the
+    identity is proved for ANY orthonormal frames, hence in particular for the true singular vectors.  Functional in `matrix`."""
+    from vt import backend
+
+    m, n = np.shape(matrix)
+    k = min(m, n) if n_eigenvecs is None else min(n_eigenvecs, max(m, n))
+    hit = backend._lookup(("orth_svd", k), (matrix,))
+    if hit is None:
+        ku = min(k, m)
+        kv = min(k, n)
+        U = backend.givens_frame(m, ku, "oU")
+        V = backend.givens_frame(n, kv, "oV").T
+        if ku < k:  # more components requested than rows: pad like full_matrices would (never used by the callers here)
+            U = np.concatenate([U, np.zeros((m, k - ku), dtype=object)], axis=1)
+        if kv < k:
+            V = np.concatenate([V, np.zeros((k - kv, n), dtype=object)], axis=0)
+        hit = backend._record(("orth_svd", k), (matrix,), (U, backend.sorted_nonneg("oS", k), V))
+    return tuple(np.array(h, dtype=object).view(__import__("vt.sym", fromlist=["SArr"]).SArr) for h in hit)
+
+
+def h_tucker(E, cfg):
+    from tensorly.decomposition import tucker, partial_tucker
+    from vt import backend
+    import tensorly.decomposition._tucker as _tk
+
+    shp, rank, opt, K = cfg["shape"], cfg["rank"], cfg["opt"], cfg["K"]
+    if E.symbolic:
+        backend.configure(svd="givens")
+        backend.patch(_tk, "svd_interface", stub_orthonormal_svd)
+    X = E.real("X", shp)
+    E.assume(E.Or([E.Not(E.eq(x, 0)) for x in np.asarray(X, dtype=object).ravel()]))
+    mask = None
+    kw = dict(tol=0)
+    if opt == "mask":
+        mask = np.ones(shp, dtype=object if E.symbolic else float)
+        mask[(0,) * len(shp)] = 0
+        kw["mask"] = mask
+    last = None
+    for k in range(1, K + 1):
+        if opt == "partial":
+            modes = cfg["modes"]
+            (core, factors), errs = partial_tucker(np.array(X), rank=list(rank), modes=list(modes), n_iter_max=k, init="svd", **kw)
+            M = dense_tucker(core, factors, modes)
+        else:
+            res, errs = tucker(np.array(X), rank=list(rank), n_iter_max=k, init="svd" if opt != "random_init" else "random", return_errors=True, random_state=5, **kw)
+            core, factors = res
+            M = dense_tucker(core, factors)
+        E.prove(f"K{k}/n_errors", len(errs) == k)
+        if mask is None:
+            _err_obligations(E, f"K{k}/last_error_is_error_of_result", errs[-1], X, M)
+        else:
+            # HOOI on masked data works on the imputed tensor of the last sweep
+            _err_obligations(E, f"K{k}/last_error_is_error_of_result", errs[-1], X, M, mask=mask, norm_ref=np.asarray(X, dtype=object) * mask + M * (1 - mask))
+        if last is not None:
+            E.prove(f"K{k}/prefix_consistent", [E.eq(a, b) for a, b in zip(last, errs)])
+        last = list(errs)
+
+    def rerun(Xv):
+        return tucker(Xv, rank=list(rank), n_iter_max=2, return_errors=True, tol=0)[1] if opt != "partial" else partial_tucker(Xv, rank=list(rank), modes=list(cfg["modes"]), n_iter_max=2, tol=0)[1]
+
+    _finite(E, "sqrt_arguments_rounding_robust", rerun, X if not E.symbolic else None)
+
+
+def h_parafac2(E, cfg):
+    from tensorly.decomposition import parafac2
+    from tensorly.parafac2_tensor import Parafac2Tensor
+    from vt import backend
+    import tensorly.decomposition._parafac2 as _p2
+
+    rows, J, R, opt, K = cfg["rows"], cfg["J"], cfg["R"], cfg["opt"], cfg["K"]
+    seen_projections = []
+    if E.symbolic:
+        backend.configure(solve="havoc", svd="givens")
+        backend.patch(_p2, "svd_interface", stub_orthonormal_svd)
+        backend.patch(_p2, "cp_normalize", stub_cp_normalize)
+        import tensorly.parafac2_tensor as _p2t
+
+        def validate_stub(t):
+            # structural part of _validate_parafac2_tensor; its numerical orthonormality test (max|P^T P - I| > 1e-5) is replaced by the
+            # exact obligation P^T P == I proved below for every projection set that reaches the validator
+            w, fs, projs = t
+            seen_projections.append([np.asarray(p_, dtype=object) for p_ in projs])
+            rank_ = np.shape(fs[0])[1]
+            return tuple((np.shape(p_)[0], np.shape(fs[2])[0]) for p_ in projs), rank_
+
+        backend.patch(_p2, "_validate_parafac2_tensor", validate_stub)
+        backend.patch(_p2t, "_validate_parafac2_tensor", validate_stub)
+    slices = [E.real(f"X{i}", (n, J)) for i, n in enumerate(rows)]
+    allx = [x for sl in slices for x in np.asarray(sl, dtype=object).ravel()]
+    E.assume(E.Or([E.Not(E.eq(x, 0)) for x in allx]))
+    I = len(rows)
+    kw = dict(return_errors=True, n_iter_parafac=1, linesearch=False, tol=cfg.get("tol", 1e-30))
+    if opt == "normalize":
+        kw["normalize_factors"] = True
+    if opt in ("svd_init",):
+        kw["init"] = "svd"
+    else:
+        A = E.real("A", (I, R))
+        B = E.real("B", (R, R))
+        C = E.real("C", (J, R))
+        if E.symbolic:
+            P0 = [backend.givens_frame(n, R, f"P0_{i}_") for i, n in enumerate(rows)]
+        else:
+            P0 = [np.linalg.qr(np.arange(1.0, n * R + 1).reshape(n, R) ** 1.5 + np.eye(n, R))[0] for n in rows]
+        kw["init"] = (None, [np.array(A), np.array(B), np.array(C)], P0)
+    last = None
+    for k in range(1, K + 1):
+        if isinstance(kw["init"], tuple):
+            init = (None, [np.array(f) for f in kw["init"][1]], [np.array(p_) for p_ in kw["init"][2]])
+            kw2 = dict(kw, init=init)
+        else:
+            kw2 = dict(kw)
+        res, errs = parafac2([np.array(sl) for sl in slices], R, n_iter_max=k, **kw2)
+        w, (A_, B_, C_), projs = res
+        E.prove(f"K{k}/n_errors", 1 <= len(errs) <= k)
+        # dense slices of the returned decomposition: X_i ~ P_i B diag(w * A_i) C^T
+        tot_res = 0
+        tot_ref = 0
+        tot_M = 0
+        for i, sl in enumerate(slices):
+            n = rows[i]
+            for a in range(n):
+                for j in range(J):
+                    m = 0
+                    for r in range(R):
+                        pb = sum(projs[i][a, q] * B_[q, r] for q in range(R))
+                        wr = 1 if w is None else w[r]
+                        m = m + wr * A_[i, r] * pb * C_[j, r]
+                    d = sl[a, j] - m
+                    tot_res = tot_res + d * d
+                    tot_ref = tot_ref + sl[a, j] * sl[a, j]
+                    tot_M = tot_M + m * m
+        E.nonneg(tot_M)
+        E.nonneg(tot_res)
+        spec = E.sqrt(tot_res) / E.sqrt(tot_ref)
+        if len(errs) == k:
+            E.prove(f"K{k}/last_error_is_error_of_result/value", E.eq(errs[-1], spec))
+        if last is not None and len(errs) > len(last):
+            E.prove(f"K{k}/prefix_consistent", [E.eq(a, b) for a, b in zip(last, errs)])
+        if len(errs) == k:
+            last = list(errs)
+
+    if E.symbolic and seen_projections:
+        ok = []
+        for projs in seen_projections[-2 * len(rows):]:
+            for P in projs:
+                G = np.dot(P.T, P)
+                ok.append(E.eq_arrays(G, np.eye(R, dtype=object)))
+        E.prove("projections_reaching_the_validator_are_orthonormal", ok)
+
+    def rerun(Xv):
+        sl = [Xv[i] for i in range(Xv.shape[0])]
+        return parafac2(sl, R, n_iter_max=3, return_errors=True, init="svd", tol=1e-30, linesearch=False)[1]
+
+    X3 = None
+    if not E.symbolic and len(set(rows)) == 1:
+        X3 = np.stack([np.asarray(sl, dtype=float) for sl in slices])
+    _finite(E, "sqrt_arguments_rounding_robust", rerun, X3)
 
 
 def stub_cp_normalize(cp_tensor):
@@ -119,6 +294,11 @@ def stub_cp_normalize(cp_tensor):
     w, fs = cp_tensor
     R = np.shape(fs[0])[1]
     w = np.ones(R, dtype=object) if w is None else np.asarray(w, dtype=object)
+    from tensorly.cp_tensor import CPTensor
+
+    hit = backend._lookup("cp_normalize", (w,) + tuple(fs))
+    if hit is not None:
+        return CPTensor((hit[0].copy(), [f.copy() for f in hit[1]]))
     new_f = []
     scale = [1] * R
     for k, f in enumerate(fs):
@@ -133,9 +313,8 @@ def stub_cp_normalize(cp_tensor):
                 sym.CTX.dens.pop()
         new_f.append(g.view(sym.SArr))
     new_w = np.array([w[r] * scale[r] for r in range(R)], dtype=object).view(sym.SArr)
-    from tensorly.cp_tensor import CPTensor
-
-    return CPTensor((new_w, new_f))
+    backend._record("cp_normalize", (w,) + tuple(fs), (new_w, new_f))
+    return CPTensor((new_w.copy(), [f.copy() for f in new_f]))
 
 
 def stub_svd_interface(matrix, n_eigenvecs=None, **kw):
@@ -144,7 +323,10 @@ def stub_svd_interface(matrix, n_eigenvecs=None, **kw):
 
     m, n = np.shape(matrix)
     k = min(m, n) if n_eigenvecs is None else min(n_eigenvecs, max(m, n))
-    return backend.fresh_array("iU", (m, k)), backend.sorted_nonneg("iS", k), backend.fresh_array("iV", (k, n))
+    hit = backend._lookup(("svd_interface", k), (matrix,))
+    if hit is None:
+        hit = backend._record(("svd_interface", k), (matrix,), (backend.fresh_array("iU", (m, k)), backend.sorted_nonneg("iS", k), backend.fresh_array("iV", (k, n))))
+    return tuple(h.copy() for h in hit)
 
 
 class _Collector:
@@ -171,6 +353,7 @@ def _err_obligations(E, name, err, X, M, mask=None, extra=0, norm_ref=None):
     if mask is not None:
         res = res * mask
     ref = X if norm_ref is None else norm_ref
+    E.nonneg(sq(M))
     spec = E.sqrt(sq(res)) / E.sqrt(sq(ref))
     E.prove(f"{name}/value", E.eq(err, spec))
 
@@ -224,7 +407,7 @@ def h_parafac(E, cfg):
         kw["tol"] = E.real("tol", pos=True)
     lastK = None
     for k in range(1, K + 1):
-        if opt.startswith("linesearch") and k not in (1, 6, 7, 8):
+        if opt.startswith("linesearch") and k not in (7, 8):
             continue
         col = _Collector()
         kw2 = dict(kw)
@@ -233,7 +416,7 @@ def h_parafac(E, cfg):
         if isinstance(kw2.get("init"), tuple):
             w_i, f_i = kw2["init"]
             kw2["init"] = (None if w_i is None else np.array(w_i), [np.array(f) for f in f_i])
-        res, errs = parafac(np.array(X), R, n_iter_max=k, callback=col, **kw2)
+        res, errs = parafac(np.array(X), R, n_iter_max=k, callback=None if opt == "sparsity" else col, **kw2)
         sparse = 0
         if opt == "sparsity":
             res, sparse = res
@@ -256,26 +439,69 @@ def h_parafac(E, cfg):
         if lastK is not None and len(errs) > len(lastK) >= 1 and not opt.startswith("linesearch"):
             E.prove(f"K{k}/prefix_consistent", [E.eq(a, b) for a, b in zip(lastK, errs)])
         lastK = list(errs)
-    _finite(E, "sqrt_arguments_rounding_robust")
+    def rerun(Xv):
+        kw3 = {k_: v_ for k_, v_ in kw.items() if k_ not in ("init", "mask")}
+        kw3["init"] = "random"
+        kw3["random_state"] = 0
+        return parafac(Xv, R, n_iter_max=3, **kw3)[1]
+
+    _finite(E, "sqrt_arguments_rounding_robust", rerun, X if not E.symbolic else None)
 
 
-def _finite(E, name):
-    """every sqrt argument reached on this path: t >= 2^-50 * M(t) where M(t) sums |top-level addends| (fl model of the last reduction)"""
+def rank1_variants(X):
+    """concrete replay family for the rounding obligation: exactly rank-1 tensors built from the fibres of the model input,
+    at several scales (a real ALS/HOOI sweep fits them exactly, which is where an unguarded sqrt argument rounds below 0)"""
+    X = np.asarray(X, dtype=float)
+    vecs = []
+    for k in range(X.ndim):
+        idx = [0] * X.ndim
+        idx[k] = slice(None)
+        v = X[tuple(idx)].copy()
+        if not np.any(v):
+            v = np.ones_like(v)
+        vecs.append(v)
+    out = []
+    for s_ in (1.0, 1e-3, 1e3, 0.7, 3.3, 1e-6, 17.0, 0.1):
+        for flip in (1.0, -1.0):
+            t = np.array(flip * s_)
+            for v in vecs:
+                t = np.multiply.outer(t, v * 1.37 if flip < 0 else v)
+            out.append(t)
+    return out
+
+
+def _finite(E, name, rerun=None, X=None):
+    """symbolic: every sqrt argument t reached on this path satisfies t >= 2^-50 * M(t), M(t) = sum |top-level addends| (fl model of
+    the last reduction; a syntactic sum of squares / |.|-guarded argument passes by construction).
+    concrete (replay): the real run on exactly-low-rank variants of the model input must report finite values only."""
     from vt import sym
 
     if not E.symbolic:
+        ok = True
+        if rerun is not None and X is not None:
+            for Xv in rank1_variants(X):
+                try:
+                    vals = rerun(Xv)
+                except Exception:
+                    continue
+                if not all(np.isfinite(float(v)) for v in vals):
+                    ok = False
+                    break
+        E.prove(name, ok)
         return
     import z3
 
-    bad = []
+    conds = []
+    hints = []
+    u = z3.RealVal(1) / z3.RealVal(2**50)
     for raw, guarded, degree in sym.CTX.rootargs_raw:
         if guarded:
             continue
         adds = _addends(raw)
         M = sum((z3.If(a >= 0, a, -a) for a in adds), z3.RealVal(0))
-        u = z3.RealVal(1) / z3.RealVal(2**50)
-        bad.append(sym.SB(raw >= u * M))
-    E.prove(name, bad if bad else True)
+        conds.append(sym.SB(raw >= u * M))
+        hints.append(z3.And(raw == 0, M >= 1))
+    E.prove(name, conds if conds else True, hints=hints)
 
 
 def _addends(t):
